@@ -248,7 +248,11 @@ func zzService(captures []zzCapture) *Manager {
 // zzSettle waits until no job is running and nothing is queued (C09: this
 // must happen within a bounded number of service-loop rounds).
 func zzSettle(mgr *Manager) {
-	for round := 0; round < 150; round++ {
+	rounds := 150
+	if !zz.Symbolic() {
+		rounds = 3000 // natively: up to 6 s of wall time on a loaded machine
+	}
+	for round := 0; round < rounds; round++ {
 		st := mgr.Status()
 		if st.ImportJobCount == 0 && !st.MergeJobRunning && !st.TaggingJobRunning && !st.ConverterJobRunning {
 			// one more look: the completion of a job may have started the next
@@ -263,7 +267,11 @@ func zzSettle(mgr *Manager) {
 }
 
 func zzWaitImports(mgr *Manager) {
-	for round := 0; round < 400; round++ {
+	rounds := 400
+	if !zz.Symbolic() {
+		rounds = 3000
+	}
+	for round := 0; round < rounds; round++ {
 		if mgr.Status().ImportJobCount == 0 {
 			return
 		}
@@ -350,6 +358,12 @@ func zzCheckQuiescent(mgr *Manager, model *zzWorld, label string) {
 					want = fs.cbytes >= zzThreshold
 				case "sport:80":
 					want = fs.sport == 80
+				case "sport:443":
+					want = fs.sport == 443
+				case "id:0:":
+					want = true
+				case "service:web":
+					want = mgr.tags["service/web"].Matches.IsSet(uint(fs.id)) && (mgr.tags["service/web"].definition == "sport:80" && fs.sport == 80 || mgr.tags["service/web"].definition == "sport:443" && fs.sport == 443)
 				}
 				zz.Assert(t.Matches.IsSet(uint(fs.id)) == want, label+".tags.decided-membership-is-current ("+name+")")
 			}
@@ -404,11 +418,21 @@ func ZZ_SVC_Scenarios() {
 	zzThreshold = zz.Range("threshold", 1, 6)
 	zz.Assert(mgr.AddTag("tag/big", "#111111", zzBigDef()) == nil, "addtag")
 	zz.Assert(mgr.AddTag("service/web", "#222222", "sport:80") == nil, "addtag")
+	if zz.Param("idtag", 1) == 1 {
+		zz.Assert(mgr.AddTag("tag/all", "#333333", "id:0:") == nil, "addtag")
+	}
+	scenario := zz.Choice("scenario", zz.Param("scenarios", 5))
+	var early View
+	earlyCount := 0
+	if scenario == 7 { // a view first used before anything was imported
+		early = mgr.GetView()
+		early.AllStreams(context.Background(), func(sc StreamContext) error { earlyCount++; return nil })
+	}
 	imp("a.pcap")
 	zzSettle(mgr)
 	zzCheckQuiescent(mgr, model, "after-first-import")
 
-	switch zz.Choice("scenario", zz.Param("scenarios", 5)) {
+	switch scenario {
 	case 0: // plain sequence; the third index makes a merge eligible
 		imp("b.pcap")
 		zzSettle(mgr)
@@ -453,6 +477,36 @@ func ZZ_SVC_Scenarios() {
 		zzWaitImports(mgr)
 		mgr.updateTagJob("tag/big", t, map[string]query.TagDetails{}, map[string]index.ConverterAccess{}, idxs, rel)
 		zzSettle(mgr)
+	case 6: // a tag that references another: the referenced tag is edited while the referencing tag's job is in flight
+		zz.Assert(mgr.AddTag("tag/viaweb", "#444444", "service:web") == nil, "addtag")
+		zzSettle(mgr)
+		imp("b.pcap")
+		zzSettle(mgr)
+		var t tag
+		var idxs []*index.Reader
+		var rel indexReleaser
+		details := map[string]query.TagDetails{}
+		zzInService(mgr, func() { // what startTaggingJobIfNeeded does when it starts the job for tag/viaweb
+			ti := *mgr.tags["tag/viaweb"]
+			ti.Uncertain = mgr.allStreams
+			mgr.tags["tag/viaweb"] = &ti
+			t = ti
+			details["service/web"] = mgr.tags["service/web"].TagDetails
+			mgr.updatedStreamsDuringTaggingJob = bitmask.LongBitmask{}
+			mgr.resetStreamsDuringTaggingJob = bitmask.LongBitmask{}
+			mgr.addedStreamsDuringTaggingJob = bitmask.LongBitmask{}
+			mgr.taggingJobRunning = true
+			idxs, rel = mgr.getIndexesCopy(0)
+		})
+		zz.Assert(mgr.UpdateTag("service/web", UpdateTagOperationUpdateQuery("sport:443")) == nil, "updatetag")
+		mgr.updateTagJob("tag/viaweb", t, details, map[string]index.ConverterAccess{}, idxs, rel)
+		zzSettle(mgr)
+	case 7: // ... keeps giving the same answers for its whole lifetime
+		n1 := 0
+		early.AllStreams(context.Background(), func(sc StreamContext) error { n1++; return nil })
+		zz.Assert(n1 == earlyCount, "view.same-answer-for-its-whole-lifetime")
+		early.Release()
+		zzInService(mgr, func() {})
 	case 5: // a capture arrives out of chronological order: the stream is reset
 		imp("early.pcap")
 		zzSettle(mgr)
